@@ -49,6 +49,9 @@ UNFIX = {
     "4a81ef3": [("C05", "R-C05-constants")],
     "c5b528e": [("C05", "R-C05-constants")],
     "b5dea8d": [("C05", "R-C05-range")],
+    "b7714e5": [("C07", "R-C07-support-frame")],
+    "4fe22b9": [("C01", "R-C01-short-signal")],
+    "eb5740a": [("C01", "R-C01-reflection-depth")],
 }
 
 # edit mutants: (property, name, file, old, new, expected rule prefix)  - `old` must occur exactly once
